@@ -51,6 +51,17 @@ func rulePoolLock(c *Ctx, rule string) {
 			c.ob(rule, fn, "deployment pods always take the pool lock before counting", cnt[0], len(dp) > 0 && everyPathPassesTo(fn, dp, lk[0], cnt[0]),
 				"from the keyObj.Deployment() edge every path to getAvailableSubnet passes LockDpPool (whose releaser is deferred: C18.R4)")
 			c.ob(rule, fn, "no count / allocate before the lock on the deployment path", lk[0], !c.reachAfter(cnt[0], nil).has(lk[0]) && !c.reachAfter(alc[0], nil).has(lk[0]), "LockDpPool is not reachable after getAvailableSubnet / allocateDuringFilter")
+			// a sized pool allocates during filter (under the lock), not later in bind: allocateDuringFilter is reachable
+			// through the true edge of a test of the very isPoolSizeDefined value given to getAvailableSubnet
+			sized := callArgs(cnt[0])[3]
+			sizedEdges := guardEdges(fn, predBool(func(v ssa.Value) bool { return v == sized }))
+			okSized := false
+			for _, e := range sizedEdges {
+				if reachFromEdge(e, nil).has(alc[0]) {
+					okSized = true
+				}
+			}
+			c.ob(rule, fn, "a pod of a sized pool gets its ip during filter, inside the pool lock", alc[0], okSized, "allocateDuringFilter is reachable through the true edge of `isPoolSizeDefined` (deferring the allocation to bind would leave count and allocate in different critical sections)")
 			for _, it := range []struct {
 				call ssa.CallInstruction
 				idx  int
